@@ -135,8 +135,11 @@ bool OPNMIDIplay::LoadBank(FileAndMemReader &fr)
     {
         for(size_t i = 0; i < slots_counts[ss]; i++)
         {
-            size_t bankno = (slots_src_ins[ss][i].bank_midi_msb * 256) +
-                            (slots_src_ins[ss][i].bank_midi_lsb) +
+            // Bank numbers are 7-bit MIDI values: bit 7 of the MSB would alias the percussion tag of the key.
+            // Only percussion sets use the upper half of the LSB (XG SFX kits)
+            const size_t msb = slots_src_ins[ss][i].bank_midi_msb & 0x7F;
+            const size_t lsb = ss ? slots_src_ins[ss][i].bank_midi_lsb : (slots_src_ins[ss][i].bank_midi_lsb & 0x7F);
+            size_t bankno = (msb * 256) + lsb +
                             (ss ? size_t(Synth::PercussionTag) : 0);
             Synth::Bank &bank = synth.m_insBanks[bankno];
             for(int j = 0; j < 128; j++)
